@@ -291,6 +291,9 @@ void StatusPrinter::BuildStarted() {
 void StatusPrinter::BuildFinished() {
   printer_.SetConsoleLocked(false);
   printer_.PrintOnNewLine("");
+  // The same Status serves every build of one invocation (manifest
+  // regeneration, then the real build): the next plan counts from zero.
+  total_edges_ = 0;
 }
 
 string StatusPrinter::FormatProgressStatus(const char* progress_status_format,
